@@ -112,6 +112,16 @@ def build(world) -> List[Dict[str, Any]]:
         t0 = min(e["ts"] for e in evs if e["pid"] != 0 and e["name"] != "aten::root")
         evs.append(kineto.cpu_op("aten::other_process_a", t0, 6, tid=kineto.MAIN_TID, pid=200, ext=997))
         evs.append(kineto.cpu_op("aten::other_process_b", t0 + 7, 30, tid=kineto.MAIN_TID, pid=200, ext=998))
+    if world.get("overhang"):
+        # rounding artefact the analysis tolerates: the last event nested in an operator ends one unit after the operator
+        ops = [e for e in evs if e["pid"] != 0 and e["name"].startswith("aten::op")]
+        for p_ in ops:
+            inner = [c for c in evs if c is not p_ and c["pid"] == p_["pid"] and c["tid"] == p_["tid"] and c.get("cat") in ("cpu_op", "cuda_runtime")
+                     and p_["ts"] <= c["ts"] and c["ts"] + c["dur"] <= p_["ts"] + p_["dur"]]
+            if inner:
+                c = max(inner, key=lambda e: (e["ts"] + e["dur"], e["ts"]))
+                c["dur"] = p_["ts"] + p_["dur"] + 1 - c["ts"]
+                break
     if world.get("file_order") == "device-reversed":
         host = [e for e in evs if e["pid"] != 0]
         dev = [e for e in evs if e["pid"] == 0]
